@@ -1,3 +1,4 @@
-LOOP_WRAP := -Wl,--wrap=clock_gettime -Wl,--wrap=clock_getres -Wl,--wrap=epoll_wait -Wl,--wrap=random
-LDFLAGS_c10_loop_fair := $(LOOP_WRAP)
+LOOP_WRAP := -Wl,--wrap=clock_gettime -Wl,--wrap=clock_getres -Wl,--wrap=epoll_wait -Wl,--wrap=random -Wl,--wrap=usleep
+LDFLAGS_c08_loop_regs := $(LOOP_WRAP)
+LDFLAGS_c09_loop_timers := $(LOOP_WRAP)
 LDFLAGS_c10_loop_fair := $(LOOP_WRAP)
